@@ -6,6 +6,8 @@ package hx
 
 import (
 	"encoding/json"
+	"io"
+	"log/slog"
 	"flag"
 	"fmt"
 	"hash/fnv"
@@ -19,6 +21,13 @@ import (
 
 	"pgregory.net/rapid"
 )
+
+func init() {
+	// the engine logs through slog's default logger: keep the job logs small
+	if os.Getenv("VERIF_LOG") == "" {
+		slog.SetDefault(slog.New(slog.NewTextHandler(io.Discard, nil)))
+	}
+}
 
 var replayFile = flag.String("hx.replay", "", "replay a saved Program (JSON) instead of generating")
 
